@@ -80,7 +80,7 @@ class C11(PoolCheck):
         self.n_exh = len(self.exh)
 
     def n_cases(self, tier):
-        return self.n_exh + (8000 if tier == 'quick' else 1000000)
+        return self.n_exh + (12000 if tier == 'quick' else 1000000)
 
     # ------------------------------------------------------------------
     def gen_case(self, rng, index):
@@ -93,11 +93,11 @@ class C11(PoolCheck):
         r = rng.random()
         if r < 0.04:
             return self.gen_nested(rng)
-        if r < 0.62:
+        if r < 0.50:
             return self.gen_fault(rng)
-        if r < 0.80:
+        if r < 0.65:
             return self.gen_limit(rng)
-        if r < 0.88:
+        if r < 0.72:
             return self.gen_stack(rng)
         return self.gen_lexical(rng)
 
@@ -270,6 +270,10 @@ class C11(PoolCheck):
         ('unknownns', b'<', b'<zz:q xmlns:zz="urn:zz"/><'),
         ('unknownns_digit', b'<', b'<q xmlns="1"><r/></q><'), ('unknownns_brace', b'<', b'<q xmlns="{x"/><'),
         ('unknownns_braces', b'<', b'<zz:q xmlns:zz="a}b{c"><zz:r/></zz:q><'),
+        # an unknown xsi:type (in-scope prefix) on an element that a wildcard admits and a global declaration matches
+        ('xsitype_unknown_on_known', b'<w:known', b'<w:known xmlns:xsi="http://www.w3.org/2001/XMLSchema-instance" xsi:type="w:Nope"'),
+        # a list-typed element that decodes to nothing, followed by one of the same name
+        ('emptylist_then_same', b'<nums>', b'<nums> </nums><nums>'), ('emptylist_l', b'<f:l>', b'<f:l>  </f:l><f:l>'),
         ('hint_ipv6', b'>', b' xmlns:xsi="http://www.w3.org/2001/XMLSchema-instance" xsi:schemaLocation="urn:n http://[::1">'), ('ctrlchar', b'>', b'>&#1;'), ('bigcharref', b'>', b'>&#1114112;'),
         ('nan', b'1', b'NaN'), ('inf', b'1', b'-INF'), ('exp', b'1', b'1e999999999'), ('dur', b'true', b'P99999999999999Y'),
         ('time', b'00:00:00', b'24:00:01'), ('tz', b'Z', b'+99:99'), ('leadws', b'="', b'="\t\n '),
@@ -331,8 +335,11 @@ class C11(PoolCheck):
         body = data[data.find(b'?>') + 2:]
         applicable = [m for m, (nm_, old, _new) in enumerate(self.MUTATIONS)
                       if (old in data[:data.find(b'?>') + 2] if nm_ in self.PROLOG_MUTATIONS else old in body)] or [0]
+        # half of the draws among the mutations with a SPECIFIC pattern (they fit few documents and would otherwise
+        # be crowded out by the ones that fit everywhere)
+        specific = [m for m in applicable if len(self.MUTATIONS[m][1]) >= 5 and self.MUTATIONS[m][0] not in self.PROLOG_MUTATIONS]
         for _ in range(rng.choice([1, 1, 2])):
-            m = rng.choice(applicable)            # only mutations whose pattern occurs in this document
+            m = rng.choice(specific) if specific and rng.random() < 0.5 else rng.choice(applicable)
             muts.append([m, rng.randrange(0, max(1, min(24, body.count(self.MUTATIONS[m][1]))))])
         case = {'kind': 'lexical', 'entry': key, 'doc': di, 'muts': muts, 'api': rng.choice(APIS),
                 'lazy': rng.choice([0, 0, 1, 2]), 'src': {'ch': 'bytes'}, 'hints': rng.random() < 0.3,
